@@ -310,6 +310,31 @@ def check_class(ctx, cls_fq):
     # ---- T11 counter writers ---------------------------------------------------------
     allowed = {'hit_count': {'__init__', '__getitem__'}, 'miss_count': {'__init__', '__getitem__'},
                'soft_miss_count': {'__init__', 'get', 'setdefault'}}
+    # a private helper that writes a counter writes it on behalf of the methods that (transitively) call it
+    callers = {}
+    for c2 in prog.mro(ci):
+        for mm in getattr(c2, 'members', {}).values():
+            if isinstance(mm, FuncInfo):
+                for n2 in ast.walk(mm.node):
+                    if isinstance(n2, ast.Call) and isinstance(n2.func, ast.Attribute) and isinstance(n2.func.value, ast.Name) and \
+                            n2.func.value.id in ('self', 'cls'):
+                        callers.setdefault(n2.func.attr, set()).add(mm.name)
+
+    def on_behalf(name, seen=()):
+        if not is_private(name) or name in seen:
+            return {name}
+        cs = callers.get(name, set())
+        if not cs:
+            return set()          # a private helper nobody in the class calls (inlined away in the second view): unreachable
+        out = set()
+        for c3 in cs:
+            out |= on_behalf(c3, seen + (name,))
+        return out
+    for c in list(counter_writers):
+        ws2 = set()
+        for w_ in counter_writers[c]:
+            ws2 |= on_behalf(w_)
+        counter_writers[c] = ws2
     for c in COUNTERS:
         ws = counter_writers.get(c, set())
         extra = ws - allowed[c]
